@@ -74,7 +74,7 @@ Seqs2 == {<<a, b>> : a \in ShLead, b \in ShNext}
 Seqs3 == {<<a, b, c>> : a \in {<<Dn(P_e)>>, <<C>>}, b \in {<<D(P_x), D(P_e)>>}, c \in ShThird}
 
 Endings == {"blank", "noblank", "cut"}
-SseOf(seqs, terms) == {[mode |-> "sse", bytes |-> Encode(SseText(bs, t, e))] : bs \in seqs, t \in terms, e \in Endings}
+SseOf(seqs, terms) == {[mode |-> "sse", bytes |-> Encode(SseText(bs, t, e)), rule |-> "bounded"] : bs \in seqs, t \in terms, e \in Endings}
 
 SseStreams == SseOf(Seqs1 \cup Seqs2 \cup Seqs3, {"lf", "crlf"})
               \cup (IF Tier = 1 THEN {} ELSE SseOf(Seqs1 \cup Seqs3, {"mixed"}))
@@ -99,9 +99,23 @@ RecSeqs ==
   \cup {<<a, b, c>> : a \in Recs3, b \in Recs3, c \in {J_str}}
 
 NdTerms == IF Tier = 1 THEN {"lf", "crlf"} ELSE {"lf", "crlf", "mixed"}
-NdStreams == {[mode |-> "ndjson", bytes |-> Encode(Render(rs, t, cutLast))] : rs \in RecSeqs, t \in NdTerms, cutLast \in BOOLEAN}
+NdStreams == {[mode |-> "ndjson", bytes |-> Encode(Render(rs, t, cutLast)), rule |-> "bounded"] : rs \in RecSeqs, t \in NdTerms, cutLast \in BOOLEAN}
 
-Family == SseStreams \cup NdStreams
+\* ---- mixed terminators: the terminator is a per-LINE choice (LF, bare CR, CRLF - all legal in SSE), so one stream
+\*      contains CR followed by an empty line, LF LF, CR CR, CR LF CR, CRLF CR, ...  Every assignment of terminators
+\*      to the lines of a fixed shape; chunkings by transition cover (rule "cover", StreamCore!CoverSets).
+Terms3 == {"lf", "cr", "crlf"}
+TermBytes(t) == IF t = "lf" THEN <<LF>> ELSE IF t = "cr" THEN <<CR>> ELSE <<CR, LF>>
+RenderT(lines, terms) == FlattenSeq([i \in 1..Len(lines) |-> lines[i] \o TermBytes(terms[i])])
+MixOf(mode, lines) == {[mode |-> mode, bytes |-> Encode(RenderT(lines, ts)), rule |-> "cover"] : ts \in [1..Len(lines) -> Terms3]}
+
+P_y == <<121>>
+MixSse1 == <<Dn(P_x), Dn(P_e), <<>>, Dn(P_y), <<>>>>             \* data:x / data:é // data:y //
+MixSse2 == <<E, D(P_eurox), <<>>, C, Dn(P_e), <<>>>>              \* event: e / data: €x // : c / data:é //
+MixNd   == <<J_one, J_str, J_arr>>
+MixStreams == MixOf("sse", MixSse1) \cup MixOf("ndjson", MixNd) \cup (IF Tier = 1 THEN {} ELSE MixOf("sse", MixSse2))
+
+Family == SseStreams \cup NdStreams \cup MixStreams
 
 \* ---- pairs of streams consumed in one process (StreamPair.tla): events of >= 2 lines, LF and CRLF, a
 \*      multi-byte character, an unterminated last event, id:/event: fields, NDJSON next to SSE
